@@ -4,10 +4,29 @@ import schedcheck
 PROPS = ["Props/C05.v"]
 
 
+def with_scenarios(ctx):
+    """limit projects with a second and third scenario (nested or siblings) and scenario-specific efforts: every
+    scenario has limit counters of its own, and the oracle is applied to the ledger of each"""
+    import gens
+    import projects
+    out = []
+    for ap in gens.family(ctx, "limits", ctx.n(60, 500)) + gens.family(ctx, "teamlimits", ctx.n(20, 150)):
+        ap["scenario_lines"] = [ctx.rng.choice(['scenario plan "plan" { scenario s1 "s1" }',
+                                                'scenario plan "plan" { scenario s1 "s1" scenario s2 "s2" }',
+                                                'scenario plan "plan" { scenario s1 "s1" { scenario s2 "s2" } }'])]
+        for _, n in projects.walk(ap["tasks"]):
+            if "kids" not in n and n.get("effort") and ctx.rng.random() < 0.4:
+                n.setdefault("sc_attrs", []).append(("s1", "effort", n["effort"] * ctx.rng.choice([1, 2, 3])))
+        ap["_family"] = "scenlimits"
+        out.append(ap)
+    return out
+
+
 def run(ctx):
     schedcheck.run(ctx, "C05", PROPS,
                    [("limits", 200, 2000), ("sublimits", 120, 1200), ("teamlimits", 60, 500), ("core", 60, 600), ("coredeps", 30, 300), ("alapcore", 60, 600)],
                    ["c05"],
                    ["booked seconds are aggregated per calendar day / ISO week by the harness itself from the ledger",
                     "limit values are whole numbers of slots after int(hours / slot_hours), as the code computes them"],
-                   "corpus first; dailymax / weeklymax on resources, resource groups, tasks and containers (optionally restricted to one resource), horizons that overrun the declared end, starts on Sundays, at year ends, in 53-week years and with a time of day, resolutions 15-60 min; limits reached by tasks that begin or end inside a slot after a predecessor on another resource; Gen/LimitsPy compared on the leaf grid; core projects compared with the extracted scheduler model")
+                   "corpus first; dailymax / weeklymax on resources, resource groups, tasks and containers (optionally restricted to one resource), horizons that overrun the declared end, starts on Sundays, at year ends, in 53-week years and with a time of day, resolutions 15-60 min; limits reached by tasks that begin or end inside a slot after a predecessor on another resource; Gen/LimitsPy compared on the leaf grid; core projects compared with the extracted scheduler model; limit projects with two and three scenarios: the oracle is applied to the ledger of every scenario",
+                   extra_cases=with_scenarios, all_scenarios=True)
